@@ -229,7 +229,12 @@ def gen_history(rnd, pool, idx):
     n = rnd.randrange(5, 61)
     k = rnd.random()
     out = []
-    if k < 0.3:
+    if k < 0.12:
+        # one thematic group (date-order disturbers+victims, or overlapping zone spellings), calls in random order
+        grp = rnd.choice(["order", "tz"])
+        sub = [c for c in pool if c.get("grp") == grp]
+        out = [rnd.choice(sub) for _ in range(n)]
+    elif k < 0.3:
         out = [rnd.choice(pool) for _ in range(n)]
     elif k < 0.65:
         # few keys: 2-3 languages x 3-4 settings, repeated (aims at the caches and the registry)
